@@ -154,6 +154,7 @@ class SWorldMonitor:
         self.swin = {}         # sid -> what is left of the window the PEER advertised for responses (revision one)
         self.spend = set()     # streams whose handler is inside SendMsg (no result yet)
         self.rpend = set()     # streams whose handler is inside RecvMsg (no result yet)
+        self.resp_msgs = {}    # sid -> response messages started on the wire
         self.ctx_ended = set() # streams whose handler context has ended
 
     def feed(self, op, obs_line):
@@ -339,6 +340,33 @@ class SWorldMonitor:
                 self.spend.discard(dsid)
             if dop == "recv":
                 self.rpend.discard(dsid)
+        # ---- C07 / C16: a unary RPC never ends OK without its response ("success with missing data") ----
+        for fsid, f in o["F"]:
+            if f.startswith("msg:"):
+                self.resp_msgs[fsid] = self.resp_msgs.get(fsid, 0) + 1
+            if f.startswith("close:0") and self.meta.get(fsid, {}).get("shape") == "U" and self.meta[fsid].get("accepted") \
+                    and self.resp_msgs.get(fsid, 0) == 0:
+                why = " after its deadline / cancellation" if fsid in self.ctx_ended or fsid in self.cancelled else ""
+                for tag in ("C07", "C16"):
+                    v.append((tag, "ok-close-without-response", f"stream {fsid} (unary): the server closed the RPC with status OK without ever sending "
+                                                                f"the response message{why}"))
+        # ---- C05 / C10: whenever the application reads, the credit is returned (also for RPCs in flight during shutdown) ----
+        if op.startswith("s.frame") and kind == "half" and sid in self.meta:
+            self.meta[sid]["half"] = True
+        for dsid, dop, res in o["D"]:
+            m_ = self.meta.get(dsid)
+            if dop in ("recv", "decode") and res.startswith("msg:") and m_ and m_.get("accepted") and m_.get("rev") == 1 \
+                    and not m_.get("half") and dsid not in self.cancelled and dsid not in self.ctx_ended and dsid in self.table:
+                try:
+                    ln = int(res.split(":")[2])
+                except (ValueError, IndexError):
+                    ln = 0
+                if ln > 0 and not any(fs == dsid and f.startswith("wu:") for fs, f in o["F"]) \
+                        and not any(fs == dsid and f.startswith("close:") for fs, f in o["F"]):
+                    tags = ["C05"] + (["C10"] if self.closing else [])
+                    for tag in tags:
+                        v.append((tag, "credit-not-returned", f"stream {dsid}: the handler read a message of {ln} bytes but no window update was sent"
+                                                              + (" (the RPC was in flight when shutdown began: it must go on as before)" if self.closing else "")))
         # ---- C07: when a handler's context ends (cancel frame, deadline, tunnel end) its blocked reads and writes return ----
         for e in ev:
             if e.startswith("ctxdone "):
@@ -598,6 +626,8 @@ class CWorldMonitor:
                 r["cur"] = [int(k["len"]), int(k["size"])]
             elif kind == "more" and r["cur"]:
                 r["cur"][0] += int(k["len"])
+            if kind in ("msg", "more") and r["cur"] and r["cur"][0] > r["cur"][1]:
+                r["overshoot"] = True        # the peer sent more data than the message's envelope declared
             if kind in ("msg", "more") and r["cur"] and r["cur"][0] == r["cur"][1]:
                 r["complete"] += 1
                 r["cur"] = None
@@ -661,7 +691,8 @@ class CWorldMonitor:
                             # shape violations legitimately replace the server's status by Internal
                             if res != want and not (res == "status:13"):
                                 v.append(("C02", "wrong-status", f"stream {dsid}: peer closed with code {code}, caller got {res}"))
-                            if res == "eof" and r["msgs"] != r["complete_at_close"] and r["shape"] in ("SS", "BD"):
+                            if res == "eof" and ((r["msgs"] != r["complete_at_close"] and r["shape"] in ("SS", "BD")) or
+                                                 (r["msgs"] < r["complete_at_close"] and r["complete_at_close"] == 1 and not r.get("extra"))):
                                 v.append(("C01", "incomplete-on-ok", f"stream {dsid}: OK end after {r['msgs']} of {r['complete_at_close']} responses"))
                     elif res != r["terminal"]:
                         v.append(("C02", "terminal-changed", f"stream {dsid}: terminal result {r['terminal']} then {res}"))
@@ -697,6 +728,26 @@ class CWorldMonitor:
                 r = self.rpcs.get(sid_)
                 if r and st["sent"] > self.peer_win + r["credit"]:
                     v.append(("C06", "sender-exceeds-window", f"stream {sid_}: {st['sent']} request bytes sent with window {self.peer_win} + credit {r['credit']}"))
+        # ---- C09: a response that carries more data than its envelope declared fails that RPC (Internal) as soon as the caller reads it ----
+        if op.startswith("c.call") and kind == "recv" and sid in self.rpcs:
+            self.rpcs[sid]["recv_pending"] = not any(d[0] == sid and d[1] == "recv" for d in o["D"])
+        for dsid, dop, res in o["D"]:
+            if dop == "recv" and dsid in self.rpcs and not (op.startswith("c.call") and kind == "recv" and sid == dsid):
+                self.rpcs[dsid]["recv_pending"] = False
+        reading = sid in self.rpcs and ((op.startswith("c.call") and kind == "recv") or
+                                        (op.startswith("c.frame") and kind in ("msg", "more") and
+                                         (self.rpcs[sid].get("recv_pending") or
+                                          # Invoke reads only once its request and half-close are out (it may still be parked on the window)
+                                          (self.rpcs[sid].get("invoke") and self.wire.st.get(sid, {}).get("half")))))
+        if reading and self.rpcs[sid].get("overshoot") \
+                and not self.rpcs[sid]["finished"] and not self.finished and sid in self.table \
+                and o["T"] is not None and sid in o["T"] and (live_before is None or sid in live_before):
+            got = [d for d in o["D"] if d[0] == sid and d[1] in ("recv", "invoke")]
+            if not got:
+                v.append(("C09", "oversized-response-not-refused", f"stream {sid}: the peer sent more continuation data than the message envelope declared; "
+                                                                   f"the caller's RecvMsg neither failed nor returned: it keeps buffering whatever the peer sends"))
+            elif any(d[2] == "eof" for d in got):
+                v.append(("C09", "oversized-response-not-refused", f"stream {sid}: an over-long response message was swallowed and the RPC ended normally"))
         # ---- C06: the client enforces the window IT advertised in new_stream (64 KiB), per stream, on the response direction ----
         for fsid, f in o["F"]:
             if f.startswith("new:") and self.rev != 0:
@@ -1199,6 +1250,8 @@ class RegistryMonitor:
             self.open.add(int(k["t"]))
         if name in ("r.close", "r.closewait"):
             self.open.discard(int(k["t"]))
+        if name in ("r.init", "r.open", "r.doa", "r.close", "r.closewait"):
+            self.seq = {}      # the set of tunnels changed: rotation starts afresh
         if name == "r.wait":
             self.waiters[int(k["w"])] = k["key"]
         if name == "r.closewait":
@@ -1214,6 +1267,18 @@ class RegistryMonitor:
         ms = re.match(r"served=(\S+) ", line)
         if ms and ms.group(1).isdigit() and int(ms.group(1)) not in self.open:
             v.append(("C12", "routed-to-closed-tunnel", f"an RPC was served by tunnel {ms.group(1)}, which is not open ({sorted(self.open)})"))
+        if ms and ms.group(1).isdigit() and name == "r.pick":
+            # with a stable set of n tunnels any n consecutive RPCs through one pooled channel use each tunnel exactly once
+            via = k.get("via", "")
+            cand = [t for t in self.open if via == "all" or self.key_of.get(t) == via[4:]]
+            seq = getattr(self, "seq", {}).setdefault(via, [])
+            self.seq = getattr(self, "seq", {})
+            self.seq[via] = seq
+            seq.append(int(ms.group(1)))
+            n = len(cand)
+            if n >= 2 and len(seq) >= n and len(set(seq[-n:])) != n:
+                v.append(("C12", "round-robin-repeats-a-tunnel", f"the last {n} consecutive RPCs through `{via}` were served by {seq[-n:]} although "
+                                                                 f"{n} tunnels {sorted(cand)} have been open all along: one was skipped"))
         if ms and ms.group(1) == "unavailable" and name == "r.pick":
             via = k.get("via", "")
             cand = [t for t in self.open if via == "all" or self.key_of.get(t) == via[4:]]
